@@ -279,21 +279,52 @@ func checkC03(c *Ctx, r *Report) {
 			r.Rule("integrity-pad-congruence", "header + payload + pad + 2 ≡ 0 (mod 4) and 0 ≤ pad ≤ 3 on every path that computes the pad", 1)
 			r.Check(okCong, name+"|pad", fn.Pos(), fmt.Sprintf("holds on %d authenticated paths", nAuth), whyCong)
 		}
-		// 0xFF fill loop
+		// 0xFF fill: decided on the generalised loop events — on every authenticated success path
+		// the trailer's bytes 0..pad−1 are written 0xFF by a loop, byte pad is the pad length
+		// and the trailer is pad+2 bytes long
 		r.Rule("integrity-pad-bytes", "pad bytes are 0xFF", 1)
-		okFF := false
-		allInstrs(fn, false, func(in ssa.Instruction) {
-			if st, ok := in.(*ssa.Store); ok {
-				if k, isK := constInt(st.Val); isK && k == 0xff {
-					if ia, ok := st.Addr.(*ssa.IndexAddr); ok {
-						if _, isPhi := ia.Index.(*ssa.Phi); isPhi {
-							okFF = true
-						}
-					}
-				}
+		okFF, nFF, whyFF := true, 0, ""
+		for _, le := range evs {
+			if !le.OK || !le.Bools["Authenticated"] {
+				continue
 			}
-		})
-		r.Check(okFF, name+"|0xFF fill", fn.Pos(), "loop stores 0xFF", "integrity pad bytes are not 0xFF")
+			l, has := le.lenOfBuf("app")
+			if !has {
+				continue
+			}
+			nFF++
+			pad := l.addConst(-2)
+			filled := false
+			last := "no loop writes the integrity pad bytes"
+			for _, ev := range le.eventsOf("loop:wire", "app") {
+				run, w := runOf(ev)
+				if w != "" {
+					last = w
+					continue
+				}
+				if k, isK := run.V0.isConst(); !run.ConstVal || !isK || k != 0xff {
+					last = "integrity pad bytes are not 0xFF"
+					continue
+				}
+				if !linEq(run.Idx0, linConst(0)) || len(ev.Loop.Guard) != 1 {
+					last = "the 0xFF fill does not start at the first trailer byte or is conditional"
+					continue
+				}
+				if cov, w := run.coversUpTo(pad, le.Cons); !cov {
+					last = w
+					continue
+				}
+				filled = true
+			}
+			if !filled {
+				okFF, whyFF = false, last
+			}
+		}
+		if nFF == 0 {
+			r.Unk(name+"|0xFF fill", fn.Pos(), "no authenticated success path with a trailer")
+		} else {
+			r.Check(okFF, name+"|0xFF fill", fn.Pos(), "bytes 0..pad−1 of the trailer are 0xFF", "integrity pad bytes are not 0xFF: "+whyFF)
+		}
 	}
 
 	// ---- (3) AES serialiser
@@ -355,6 +386,9 @@ func checkC03(c *Ctx, r *Report) {
 		checkAESPadArithmetic(c, r, fn)
 	}
 	checkAESPadConvention(c, r)
+	// the integrity hash handed to the wrapper is the negotiated algorithm's, keyed by K1 and
+	// truncated as specified (shared with C01): the AuthCode length follows from it
+	checkAlgorithmTables(c, r)
 	checkBufferViews(c, r, "buffer-views")
 
 	// ---- (4) layouts shared with C06
